@@ -143,6 +143,8 @@ CM_OnePerKey(o)  == \A k \in DOMAIN o.keyLens : o.keyLens[k] = Len(hist) + 1
 CM_PrefixSame(o) == o.prefixSame
 CM_Coherent(o)   == \A i \in DOMAIN o.batch : Coherent(o.batch[i])
 CM_NoInf(o)      == \A i \in DOMAIN cur : cur[i].fin
+\* the blobs visible in the current state (returned by sample()) are absent or belong to these particles
+CM_BlobsVisible(o) == o.blobsOK
 
 \* ---- Terminate.  o = [nearOne, essPost, evid, evidAt]
 TM_NearOne(o)  == o.nearOne
@@ -168,7 +170,8 @@ SW_Clauses(o) == [SW_PropCoherent |-> SW_PropCoherent(o), SW_Update |-> SW_Updat
 ME_Clauses(o) == [ME_Slots |-> ME_Slots(o), ME_Calls |-> ME_Calls(o), ME_Swept |-> ME_Swept(o),
                   ME_Steps |-> ME_Steps(o), ME_SweepBounds |-> ME_SweepBounds(o)]
 CM_Clauses(o) == [CM_Append |-> CM_Append(o), CM_OnePerKey |-> CM_OnePerKey(o), CM_PrefixSame |-> CM_PrefixSame(o),
-                  CM_Coherent |-> CM_Coherent(o), CM_NoInf |-> CM_NoInf(o), CallsExact |-> calls = evals]
+                  CM_Coherent |-> CM_Coherent(o), CM_NoInf |-> CM_NoInf(o), CM_BlobsVisible |-> CM_BlobsVisible(o),
+                  CallsExact |-> calls = evals]
 TM_Clauses(o) == [TM_NearOne |-> TM_NearOne(o), TM_ESS |-> TM_ESS(o), TM_Evidence |-> TM_Evidence(o)]
 
 All(c) == \A n \in DOMAIN c : c[n]
